@@ -298,7 +298,8 @@ class SymExec:
             for k in [k for k in p.env if k.startswith(target.id + '.')]:
                 del p.env[k]
         elif isinstance(target, ast.Attribute) and dotted(target) is not None:
-            d = dotted(self.subst(target.value, p.env))
+            base = self.subst(target.value, p.env)
+            d = dotted(base) or (norm(base) if isinstance(base, (ast.Subscript, ast.Name, ast.Attribute)) else None)
             key = (d + '.' + target.attr) if d else dotted(target)
             p.env[dotted(target)] = value
             p.stores.append((key, value, st))
@@ -413,6 +414,11 @@ class SymExec:
             for val, blk in ((True, st.body), (False, st.orelse)):
                 if isinstance(test, ast.Constant) and bool(test.value) != val:
                     continue        # the test is a known constant on this path
+                if val and ((isinstance(test, ast.Call) and isinstance(test.func, ast.Name) and test.func.id in
+                             ('set', 'list', 'dict', 'tuple') and not test.args and not test.keywords) or
+                            (isinstance(test, (ast.List, ast.Tuple, ast.Set)) and not test.elts) or
+                            (isinstance(test, ast.Dict) and not test.keys)):
+                    continue        # an empty container is false
                 p2 = p.fork()
                 ats = atomize(test, val)
                 if any(isinstance(b, bool) and (t, not b) in p2.conds for t, b in ats):
@@ -649,9 +655,14 @@ def loop_transformer(ctx, func, loop, depth=2):
     k = body.index(loop)
     sx = SymExec(ctx, func, depth)
     pre_paths = [p for p in sx.run(stmts=body[:k]) if p.end is None]
-    if len(pre_paths) != 1:
-        raise AnalysisError('%s: %d paths reach the loop' % (func.qual, len(pre_paths)))
-    pre = pre_paths[0].env
+    if not pre_paths:
+        raise AnalysisError('%s: no path reaches the loop' % func.qual)
+    # what is known before the loop: the definitions all paths agree on
+    pre = dict(pre_paths[0].env)
+    for q in pre_paths[1:]:
+        for k_ in list(pre):
+            if k_ not in q.env or norm(q.env[k_]) != norm(pre[k_]):
+                del pre[k_]
     carried = {n.id for st in loop.body for n in ast.walk(st) if isinstance(n, ast.Name) and isinstance(n.ctx, ast.Store)}
     if isinstance(loop, ast.For):
         carried |= {n.id for n in ast.walk(loop.target) if isinstance(n, ast.Name)}
